@@ -3,9 +3,14 @@
    product form of the C++, their derivatives; exact rationals, compared with the C++ values within rounding on every run):
    the product form IS the Lagrange basis on the equispaced nodes, it interpolates (L_n(root_m) = delta_nm), it is a partition
    of unity for every order >= 1 - hence P2M and M2M conserve the total charge whatever the positions (also checked on the real
-   kernel at every level: `numc`), and the derivatives sum to zero. *)
+   kernel at every level: `numc`), and the derivatives sum to zero.
+   Truncation error (Num/UnifCauchy.v), one-dimensional archetype of the far-field error: replacing a source at x in the cell
+   [-1,1] by its interpolation weights on the nodes changes the Cauchy kernel 1/(d - x) seen from a well-separated target d >= 3
+   by EXACTLY -W(x)/W(d)/(d - x) (W the node polynomial; every order >= 2), hence by at most 1/8, 1/62, 1/360, 1/1850, 1/8900,
+   1/41000, 1/188000 of its value for the orders 2..8 (sharp to 1 %: Example) - geometric decay in the order.  The same sum is
+   evaluated on the C++ roots and polynomial values at run time (checks/c05.py) and must meet the bound. *)
 From Coq Require Import QArith List.
-From Tbfmm Require Import Num.UnifDefs Num.UnifProofs.
+From Tbfmm Require Import Num.UnifDefs Num.UnifProofs Num.UnifCauchy.
 Local Open Scope Q_scope.
 
 Theorem C05_lagrange_nodes : forall order n m, (2 <= order <= 8)%nat -> (n < order)%nat -> (m < order)%nat ->
@@ -34,6 +39,26 @@ Print Assumptions C05_charge_conservation.
 Theorem C05_dL_sum_zero : forall order x, (2 <= order <= 8)%nat -> qsum (map (fun n => unif_dL order n x) (seq 0 order)) == 0.
 Proof. exact dL_sum_zero. Qed.
 Print Assumptions C05_dL_sum_zero.
+
+Theorem C05_lagrange_nodes_any_order : forall order n m, (2 <= order)%nat -> (n < order)%nat -> (m < order)%nat ->
+  unif_L order n (unif_root order m) == (if Nat.eqb n m then 1 else 0).
+Proof. exact lagrange_nodes_any_order. Qed.
+Print Assumptions C05_lagrange_nodes_any_order.
+
+Theorem C05_cauchy_identity : forall order x d, (2 <= order)%nat ->
+  (forall m, (m < order)%nat -> ~ d == unif_root order m) -> ~ d == x ->
+  cauchy_interp order x d == (1 - unif_W order x / unif_W order d) / (d - x).
+Proof. exact cauchy_identity. Qed.
+Print Assumptions C05_cauchy_identity.
+
+Theorem C05_cauchy_truncation_bound : forall order x d, (2 <= order <= 8)%nat -> -1 <= x <= 1 -> 3 <= d ->
+  Qabs.Qabs (cauchy_interp order x d - 1 / (d - x)) <= unif_cap order * (1 / (d - x)).
+Proof. exact cauchy_truncation_bound. Qed.
+Print Assumptions C05_cauchy_truncation_bound.
+
+Example C05_truncation_sharp :
+  (99#100) * (unif_cap 5 * (1 / (3 - (33#40)))) <= Qabs.Qabs (cauchy_interp 5 (33#40) 3 - 1 / (3 - (33#40))).
+Proof. vm_compute. discriminate. Qed.
 
 Example C05_example : Qred (unif_L 5 1 (2#7)) = (-360 # 2401) /\ Qred (unif_total_weight 3 (1#3) (-1#2) (3#4)) = 1.
 Proof. vm_compute. split; reflexivity. Qed.
